@@ -407,6 +407,58 @@ pub fn run_tree_in(t: &GTree, domain: Domain, start_path: &[usize], params: &[Pa
         let obs = observe(&case, p, sink);
         ser_oracle::check(&mut case, p, &obs, sink);
     }
+    normalizer_oracle(t, start_path, params, sink);
+}
+
+/// The `*_with_normalizer` entry points (implementation only; the model takes the identity
+/// normalizer): serialising a tree with a normalizer must give what serialising the normalised
+/// tree gives — the normalizer runs on the character data / attribute values BEFORE they are
+/// escaped, so markup characters it produces are escaped like any others.
+fn normalizer_oracle(t: &GTree, start_path: &[usize], params: &[Params], sink: &mut Sink) {
+    let mut rng = Rng::new(0x4e0f ^ (t.size() as u64 * 7919 + start_path.len() as u64));
+    let tf = sprinkle_fullwidth(t, &mut rng);
+    if !has_fullwidth(&tf) {
+        sink.stat("normalizer.nothing-to-normalise");
+        return;
+    }
+    let tn = map_tree_fullwidth(&tf);
+    let mut xa = Xot::new();
+    let va = ser_vocab(&mut xa);
+    let mut xb = Xot::new();
+    let vb = ser_vocab(&mut xb);
+    let (ra, rb) = match (build(&mut xa, &va, &tf, true), build(&mut xb, &vb, &tn, true)) {
+        (Ok(a), Ok(b)) => (a, b),
+        _ => return,
+    };
+    let (na, nb) = (nodes_in_order(&xa, ra), nodes_in_order(&xb, rb));
+    let tpaths = tf.paths();
+    if na.len() != tpaths.len() || nb.len() != tpaths.len() {
+        return;
+    }
+    let idx = match tpaths.iter().position(|p| p.as_slice() == start_path) {
+        Some(i) => i,
+        None => return,
+    };
+    for p in params {
+        let a = res_of(guarded(|| xa.serialize_xml_string_with_normalizer(p.xml_params(&va), na[idx], FullwidthNormalizer)));
+        let b = res_of(guarded(|| xb.serialize_xml_string(p.xml_params(&vb), nb[idx])));
+        let same = match (&a, &b) {
+            (Res::Ok(x), Res::Ok(y)) => x == y,
+            _ => a.kind() == b.kind(),
+        };
+        if same {
+            sink.stat("oracle.C14.normalizer-equals-normalised-tree");
+        } else {
+            sink.stat("oracle.fail.C14:normalizer-output-differs-from-serialising-the-normalised-tree");
+            println!(
+                "F\tC14\t{{\"signature\": \"C14:normalizer-output-differs-from-serialising-the-normalised-tree\", \"what\": {}, \"replay\": {{\"suite\": \"ser\", \"tree\": {}, \"start\": {}, \"params\": {}}}}}",
+                ser_oracle::json_str(&format!("serialize_xml_string_with_normalizer (fullwidth forms -> ASCII) gives {}, the normalised tree serialises to {}", a.show(|s| ser_oracle::short(s)), b.show(|s| ser_oracle::short(s)))),
+                ser_oracle::json_str(&tf.wire()),
+                ser_oracle::json_str(&path_str(start_path)),
+                ser_oracle::json_str(&p.wire())
+            );
+        }
+    }
 }
 
 /// Fixed cases: the shapes named by DESIGN.md section 8 rows 2, 13, 16, 18 and their neighbours.
@@ -520,6 +572,28 @@ pub fn run(seed: u64, count: usize, tier: &str, sink: &mut Sink) {
     }
     let elem_names: Vec<usize> = GenCfg::default_cfg().elem_names;
     let search = tier == "search";
+    // deep element-only nesting, indented: the indentation width grows past any fixed buffer
+    // (seed C16f: wrong beyond level 15)
+    for k in 0..(if tier == "quick" { 4 } else { 12 }) {
+        let depth = 14 + 5 * k + rng.below(5);
+        let mut t = match rng.below(3) {
+            0 => GTree::new(GValue::Element(2), vec![]),
+            1 => GTree::leaf(GValue::Comment("c".into())),
+            _ => GTree::new(GValue::Element(3), vec![GTree::leaf(GValue::Text("x".into()))]),
+        };
+        for i in 0..depth {
+            let mut kids = vec![t];
+            if rng.chance(1, 4) {
+                kids.push(GTree::new(GValue::Element(4), vec![]));
+            }
+            t = GTree::new(GValue::Element(*rng.pick(&[2usize, 3, 4])), kids);
+            let _ = i;
+        }
+        let t = GTree::new(GValue::Document, vec![t]);
+        sink.stat("family.deep-nesting");
+        let indent = Params { indent: Some(vec![]), ..Params::plain() };
+        run_tree_in(&t, Domain::Representable, &[], &[indent, Params::plain()], sink);
+    }
     for _ in 0..count {
         let (t, domain) = {
             let mut xot = Xot::new();
